@@ -104,7 +104,12 @@ def data_byte_domain(ctx):
     if not ok:
         return fn, None, None
     ctx.fn(item_fn)
-    r = check_domain(ctx.p, ctx.f, item_fn, item_fn.params()[0])
+    try:
+        r = check_domain(ctx.p, ctx.f, item_fn, item_fn.params()[0])
+    except Undecidable as e:
+        ctx.fail('R02.3', 'item-range', ctx.where(item_fn), f'cannot derive the set of data byte values accepted by {item_fn.name}: {e}',
+                 construct=f'{item_fn.qname}::domain(data)')
+        return fn, item_fn, None
     ctx.paths += r.paths
     return fn, item_fn, r
 
